@@ -2,7 +2,10 @@
 
 Observation technique (no source hooks): spy learners (sklearn BaseEstimator subclasses) are passed as the
 `estimator` of exposure_model/outcome_model; the first design column is a row identifier, so every
-fit / predict / predict_proba call reveals which rows it saw.  pandas.DataFrame.sample and
+fit / predict / predict_proba call reveals which rows it saw.  A prediction is attributed to a fitted copy by the
+training ids the predicting object holds at predict time (not by anything remembered at fit time), and the spies come
+in composite flavours (nested sub-object trained in place, sklearn Pipeline, zEpid SuperLearner) so that copies that
+share fitted state (shallow copy) are seen.  pandas.DataFrame.sample and
 crossfit._sample_split_ are wrapped at run time to record the sampler's receiver/result and the parts.
 Everything is then judged in Coq: Model.Crossfit recomputes parts and call schedule from the recorded sampler
 outputs (correspondence), and the executable specification (partition_ok_b / no_leak_b / double_sep_b /
@@ -21,7 +24,9 @@ GEN_GROUPS = []
 RULE = ('runs of SingleCrossfitAIPTW / DoubleCrossfitAIPTW / SingleCrossfitTMLE / DoubleCrossfitTMLE with spy learners: '
         'for every n_splits k in 2..6 every residue n mod k at sizes n in 7..60 (thorough: every n in 7..60), plus random '
         '(n, k, n_partitions 1..4, random_state, binary/continuous outcome, learner with predict_proba or predict only, '
-        'index kind range/shifted/duplicated/string, 0-5 incomplete rows); each run is repeated with the same random_state; '
+        'index kind range/shifted/duplicated/string, 0-5 incomplete rows, learner family: state in own attributes / state in a '
+        'nested sub-object trained in place / sklearn Pipeline(identity, spy) / zEpid SuperLearner with a spy candidate); which fitted '
+        'copy predicts is read from the training ids the predicting object holds AT PREDICT TIME; each run is repeated with the same random_state; '
         'n_splits below the minimum (0,1 / 0,1,2) must be rejected; one Coq evaluation per partition; '
         'non-trivial = distinct (class, n, k, recorded parts)')
 TRUSTED = ['spy learners and run-time wrappers around pandas.DataFrame.sample / crossfit._sample_split_ (observation only)',
@@ -51,56 +56,148 @@ class Recorder:
 REC = [None]
 
 
+def _cur_log():
+    rec = REC[0]
+    if rec is None:
+        return None
+    return rec.cur()['log'] if rec.cur() is not None else rec.pre
+
+
+def _log_fit(role, ids):
+    """-> position j of this fit among the fits of `role` in the current partition"""
+    log = _cur_log()
+    rec = REC[0]
+    j = 0
+    if rec is not None and rec.cur() is not None:
+        j = sum(1 for e in rec.cur()['log'] if e[0] == 'fit' and e[1] == role)
+    if log is not None:
+        log.append(('fit', role, j, list(ids)))
+    return j
+
+
+def _log_predict(how, role, X, held):
+    """held = the training row ids held, AT PREDICT TIME, by the object that computes the prediction (None = unfitted).
+    Which fitted copy predicts is derived from these ids (enc_log), never from anything remembered at fit time."""
+    log = _cur_log()
+    expo = None if role == 'A' else sorted(set(float(v) for v in X[:, 1]))
+    if log is not None:
+        log.append((how, role, None, [int(v) for v in X[:, 0]], expo, None if held is None else list(held)))
+
+
+def _values(mu, X):
+    return np.full(X.shape[0], 0.5 if mu is None else mu) * 0.9 + 0.05 * np.clip(X[:, -1], 0, 1)
+
+
+def _mu(y):
+    y = np.asarray(y, dtype=float)
+    return (float(np.sum(y)) + 1.0) / (len(y) + 2.0)
+
+
 def _spy_classes():
+    """Four families of user learners.
+    plain    : fitted state in the learner's own attributes (any copy isolates it)
+    core     : fitted state inside a mutable sub-object created in __init__ and trained in place (only a deep copy isolates it)
+    pipeline : sklearn Pipeline(identity transformer, plain spy): the steps list is the shared sub-object
+    sl       : zEpid's SuperLearner (fit appends to the list self.fit_estimators created in __init__) with a quiet candidate"""
     from sklearn.base import BaseEstimator
+    from sklearn.pipeline import Pipeline
+    from sklearn.preprocessing import FunctionTransformer
+    from zepid.superlearner import SuperLearner
 
     class Spy(BaseEstimator):
-        """predict-only learner.  Identity survives deepcopy through the attributes set in fit()."""
         def __init__(self, role='A'):
             self.role = role
 
-        def _log(self, ev):
-            rec = REC[0]
-            if rec is None:
-                return
-            (rec.cur()['log'] if rec.cur() is not None else rec.pre).append(ev)
-
         def fit(self, X, y):
-            rec = REC[0]
-            part = len(rec.parts) - 1 if rec is not None else -1
-            j = 0
-            if rec is not None and rec.cur() is not None:
-                j = sum(1 for e in rec.cur()['log'] if e[0] == 'fit' and e[1] == self.role)
-            self.tok_ = (part, self.role, j)
-            y = np.asarray(y, dtype=float)
-            self.mu_ = (float(np.sum(y)) + 1.0) / (len(y) + 2.0)
-            self._log(('fit', self.role, j, [int(v) for v in X[:, 0]]))
+            ids = [int(v) for v in X[:, 0]]
+            _log_fit(self.role, ids)
+            self.state_ = {'ids': ids, 'mu': _mu(y)}
             return self
 
-        def _pred(self, X, how):
-            rec = REC[0]
-            tok = getattr(self, 'tok_', None)
-            part = len(rec.parts) - 1 if rec is not None else -1
-            if tok is None:
-                j = 9998                                   # never fitted
-            elif tok[0] != part or tok[1] != self.role:
-                j = 9999                                   # fitted in another partition / as another nuisance
-            else:
-                j = tok[2]
-            expo = None if self.role == 'A' else sorted(set(float(v) for v in X[:, 1]))
-            self._log((how, self.role, j, [int(v) for v in X[:, 0]], expo))
-            mu = getattr(self, 'mu_', 0.5)
-            return np.full(X.shape[0], mu) * 0.9 + 0.05 * np.clip(X[:, -1], 0, 1)
+        def _held(self):
+            st = getattr(self, 'state_', None)
+            return (None, None) if st is None else (st['ids'], st['mu'])
 
         def predict(self, X):
-            return self._pred(X, 'predict')
+            held, mu = self._held()
+            _log_predict('predict', self.role, X, held)
+            return _values(mu, X)
 
     class SpyProba(Spy):
         def predict_proba(self, X):
-            p = self._pred(X, 'predict_proba')
+            held, mu = self._held()
+            _log_predict('predict_proba', self.role, X, held)
+            p = _values(mu, X)
             return np.column_stack([1 - p, p])
 
-    return Spy, SpyProba
+    class Core:
+        def __init__(self):
+            self.state = None
+
+        def train(self, ids, mu):
+            self.state = {'ids': ids, 'mu': mu}
+
+    class CoreSpy(Spy):
+        def __init__(self, role='A'):
+            self.role = role
+            self.core = Core()
+
+        def fit(self, X, y):
+            ids = [int(v) for v in X[:, 0]]
+            _log_fit(self.role, ids)
+            self.core.train(ids, _mu(y))       # in place
+            return self
+
+        def _held(self):
+            st = self.core.state
+            return (None, None) if st is None else (st['ids'], st['mu'])
+
+    class CoreSpyProba(CoreSpy):
+        predict_proba = SpyProba.predict_proba
+
+    class QuietCand(BaseEstimator):
+        def __init__(self, role='A'):
+            self.role = role
+
+        def fit(self, X, y):
+            self.ids_ = [int(v) for v in X[:, 0]]
+            self.mu_ = _mu(y)
+            return self
+
+        def predict(self, X):
+            return _values(self.mu_, X)
+
+    class SpySL(SuperLearner):
+        def __init__(self, role='A'):
+            SuperLearner.__init__(self, [QuietCand(role)], ['cand'], folds=2, loss_function='L2', discrete=True)
+            self.role = role
+
+        def fit(self, X, y):
+            _log_fit(self.role, [int(v) for v in X[:, 0]])
+            return SuperLearner.fit(self, X, y)
+
+        def predict(self, X):
+            fe = self.fit_estimators
+            held = getattr(fe[0], 'ids_', None) if fe else None     # SuperLearner.predict uses fit_estimators[est_id]
+            _log_predict('predict', self.role, X, held)
+            return SuperLearner.predict(self, X)
+
+    def make(kind, role, proba):
+        """-> (learner object, function telling whether the ORIGINAL object was fitted)"""
+        if kind == 'core':
+            o = (CoreSpyProba if proba else CoreSpy)(role)
+            return o, (lambda: o.core.state is not None)
+        if kind == 'pipeline':
+            inner = (SpyProba if proba else Spy)(role)
+            o = Pipeline([('ident', FunctionTransformer()), ('spy', inner)])
+            return o, (lambda: hasattr(inner, 'state_') or hasattr(o.steps[-1][1], 'state_'))
+        if kind == 'sl':
+            o = SpySL(role)
+            return o, (lambda: len(o.fit_estimators) > 0)
+        o = (SpyProba if proba else Spy)(role)
+        return o, (lambda: hasattr(o, 'state_'))
+
+    return make
 
 
 class Wrappers:
@@ -179,11 +276,12 @@ def make_df(spec):
 def run_once(spec):
     """one construction + fit of the real class with spies; returns what was observed"""
     import zepid.causal.doublyrobust as dr
-    Spy, SpyProba = _spy_classes()
+    make = _spy_classes()
     df, rows = make_df(spec)
     snapshot = df.copy(deep=True)
-    L = SpyProba if spec['proba'] else Spy
-    a_est, y_est = L('A'), (SpyProba('Y') if (spec['proba'] and spec['outcome'] == 'binary') else Spy('Y'))
+    kind = spec.get('learner', 'plain')
+    a_est, a_touched = make(kind, 'A', spec['proba'])
+    y_est, y_touched = make(kind, 'Y', spec['proba'] and spec['outcome'] == 'binary')
     out = {'rows': rows, 'error': None}
     with warnings.catch_warnings(), Wrappers():
         warnings.simplefilter('ignore')
@@ -201,7 +299,7 @@ def run_once(spec):
             out['error'] = '%s: %s' % (type(e).__name__, str(e)[:120])
     out['parts'] = rec.parts
     out['pre'] = rec.pre
-    out['estimator_touched'] = hasattr(a_est, 'tok_') or hasattr(y_est, 'tok_')
+    out['estimator_touched'] = bool(a_touched() or y_touched())
     out['mutated'] = not snapshot.equals(df)
     return out
 
@@ -226,29 +324,39 @@ def pmap(f, xs):
 
 
 def enc_log(log):
-    """spy log -> list of (tag, j, ids) as Model.Crossfit.enc_event; None if an outcome prediction was asked for with a
-    treatment column that is not constant 0 / 1"""
-    evs = []
+    """spy log -> (events, held) ; events = [(tag, j, ids)] as Model.Crossfit.enc_event, held = [(held ids, predicted ids)].
+    For a prediction, j is the position of the fit (same nuisance, this partition) whose training ids are exactly the ids
+    the predicting object holds at predict time; 9998 = the object holds no fitted state, 9999 = it holds ids that no fit
+    of this partition used.  None if an outcome prediction was asked for with a non-constant treatment column."""
+    evs, held = [], []
+    fits = {'A': [], 'Y': []}
     for e in log:
         if e[0] == 'fit':
+            fits[e[1]].append(e[3])
             evs.append((0 if e[1] == 'A' else 1, e[2], e[3]))
-        elif e[1] == 'A':
-            evs.append((2, e[2], e[3]))
+            continue
+        h = e[5]
+        if h is None:
+            j = 9998
         else:
-            if e[4] == [1.0]:
-                evs.append((3, e[2], e[3]))
-            elif e[4] == [0.0]:
-                evs.append((4, e[2], e[3]))
-            else:
-                return None
-    return evs
+            j = next((i for i, ids in enumerate(fits[e[1]]) if ids == h), 9999)
+            held.append((h, e[3]))
+        if e[1] == 'A':
+            evs.append((2, j, e[3]))
+        elif e[4] == [1.0]:
+            evs.append((3, j, e[3]))
+        elif e[4] == [0.0]:
+            evs.append((4, j, e[3]))
+        else:
+            return None
+    return evs, held
 
 
 def zl(xs):
     return '[' + '; '.join('(%d)%%Z' % x for x in xs) + ']'
 
 
-def coq_case(spec, part, evs):
+def coq_case(spec, part, evs, held):
     tbl = '[' + '; '.join('(%s, %s)' % (zl(p[0]), zl(p[2])) for p in part['picks']) + ']'
     picks_ok = '[' + '; '.join('pick_ok_b %s %d %s' % (zl(p[0]), p[1], zl(p[2])) for p in part['picks']) + ']'
     sp = '[' + '; '.join(zl(s) for s in part['splits']) + ']'
@@ -256,9 +364,11 @@ def coq_case(spec, part, evs):
     dbl = 'true' if is_double(spec['cls']) else 'false'
     return ('let rows := %s in let sp := %s in let evs := map dec_event %s in '
             '(print_result (crossfit_partition %s (pick_tbl %s) rows %d), %s, '
-            '[nodup_b rows; partition_ok_b rows %d sp; no_leak_b evs rows; %s])'
+            '[nodup_b rows; partition_ok_b rows %d sp; no_leak_b evs rows; %s; '
+            'forallb (fun hp => disjoint_b (fst hp) (snd hp)) %s])'
             % (zl(part['rows']), sp, ev, dbl, tbl, spec['k'], picks_ok, spec['k'],
-               'double_sep_b evs' if is_double(spec['cls']) else 'true'))
+               'double_sep_b evs' if is_double(spec['cls']) else 'true',
+               '[' + '; '.join('(%s, %s)' % (zl(h), zl(ids)) for h, ids in held) + ']'))
 
 
 def gen_specs(ctx):
@@ -269,7 +379,10 @@ def gen_specs(ctx):
         s = {'cls': cls, 'n': n, 'k': k, 'nparts': rng.randint(1, 4), 'rs': rng.randint(0, 2 ** 31 - 1),
              'dseed': rng.randint(0, 2 ** 31 - 1), 'outcome': rng.choice(['binary', 'binary', 'continuous']),
              'proba': rng.random() < 0.6, 'index': rng.choice(['range', 'range', 'shift', 'dup', 'str']),
-             'nmiss': rng.choice([0, 0, 0, 1, 3, 5])}
+             'nmiss': rng.choice([0, 0, 0, 1, 3, 5]),
+             'learner': rng.choice(['plain', 'plain', 'plain', 'core', 'core', 'core', 'pipeline', 'pipeline', 'sl', 'sl'])}
+        if s['learner'] == 'sl' and n // k < 6:      # SuperLearner's inner 2-fold CV needs a few rows per part
+            s['learner'] = 'core'
         s.update(kw)
         return s
     for k in range(2, 7):
@@ -298,7 +411,7 @@ def guard_specs(ctx):
     for cls in CLASSES:
         for k in range(0, 3 if is_double(cls) else 2):
             out.append({'cls': cls, 'n': 12, 'k': k, 'nparts': 1, 'rs': 1, 'dseed': 7, 'outcome': 'binary',
-                        'proba': True, 'index': 'range', 'nmiss': 0})
+                        'proba': True, 'index': 'range', 'nmiss': 0, 'learner': ['plain', 'core', 'pipeline'][k]})
     return out
 
 
@@ -312,6 +425,7 @@ def check_specs(ctx, specs, fails):
         ctx.count('nparts=%d' % spec['nparts'])
         ctx.count('outcome:' + spec['outcome'])
         ctx.count('learner:' + ('predict_proba' if spec['proba'] else 'predict'))
+        ctx.count('learner-kind:' + spec.get('learner', 'plain'))
         ctx.count('index:' + spec['index'])
         ctx.count('incomplete_rows=%d' % spec['nmiss'])
         size = spec['n'] * 10 + spec['k']
@@ -321,9 +435,12 @@ def check_specs(ctx, specs, fails):
             p = dict(payload)
             if extra:
                 p.update(extra)
-            fails.append((size, key, '%s [%s n=%d k=%d n_partitions=%d random_state=%d outcome=%s]'
-                          % (what, spec['cls'], spec['n'], spec['k'], spec['nparts'], spec['rs'], spec['outcome']), p))
+            fails.append((size, key, '%s [%s n=%d k=%d n_partitions=%d random_state=%d outcome=%s learner=%s]'
+                          % (what, spec['cls'], spec['n'], spec['k'], spec['nparts'], spec['rs'], spec['outcome'], spec.get('learner', 'plain')), p))
         r1, r2, seeds = work
+        if r1['error'] and spec.get('learner') == 'sl' and 'SuperLearner' in r1['error']:
+            ctx.count('learner-kind:sl refused a degenerate part (not judged)')
+            continue
         if r1['error']:
             bad('%s.fit.raises' % spec['cls'], 'fit raised %s on valid input' % r1['error'])
             continue
@@ -355,11 +472,12 @@ def check_specs(ctx, specs, fails):
             if part['rows'] != r1['rows']:
                 bad('%s.analysed-rows' % spec['cls'], 'analysed rows differ from the complete rows of the input (in frame order): %d vs %d rows'
                     % (len(part['rows']), len(r1['rows'])))
-            evs = enc_log(part['log'])
-            if evs is None:
+            enc = enc_log(part['log'])
+            if enc is None:
                 bad('%s.predict.exposure-not-set' % spec['cls'], 'outcome learner asked to predict with a non-constant treatment column')
                 continue
-            exprs.append(coq_case(spec, part, evs))
+            evs, held = enc
+            exprs.append(coq_case(spec, part, evs, held))
             meta.append((spec, pi, part, evs, size))
     res, errs = coq_eval(ctx, 'c04', ['Zepid.Model.Crossfit'], exprs, shard=40)
     if errs:
@@ -369,8 +487,9 @@ def check_specs(ctx, specs, fails):
         if r is None:
             continue
         payload = {'spec': spec, 'partition': pi, 'splits': part['splits']}
-        where = '[%s n=%d k=%d partition %d/%d random_state=%d seed=%r]' % (spec['cls'], spec['n'], spec['k'], pi + 1, spec['nparts'], spec['rs'], part['seed'])
-        status, m_sp, m_evs, picks_ok, (rows_nodup, part_ok, leak_ok, sep_ok) = r   # Coq prints left-nested pairs flat
+        where = '[%s n=%d k=%d partition %d/%d random_state=%d seed=%r learner=%s]' % (
+            spec['cls'], spec['n'], spec['k'], pi + 1, spec['nparts'], spec['rs'], part['seed'], spec.get('learner', 'plain'))
+        status, m_sp, m_evs, picks_ok, (rows_nodup, part_ok, leak_ok, sep_ok, held_ok) = r   # Coq prints left-nested pairs flat
         ctx.nontriv([spec['cls'], spec['n'], spec['k'], part['splits']])
         ctx.sample({'class': spec['cls'], 'n': len(part['rows']), 'k': spec['k'], 'part_sizes': [len(s) for s in part['splits']],
                     'calls': len(evs), 'model_status': status}, cap=4)
@@ -405,6 +524,10 @@ def check_specs(ctx, specs, fails):
         if not leak_ok:
             fails.append((size, '%s.leak' % spec['cls'],
                           'some row is not predicted exactly once per nuisance by a learner fitted without it %s' % where, payload))
+        if not held_ok:
+            fails.append((size, '%s.leak.held-at-predict' % spec['cls'],
+                          'a learner object predicted rows that are among the training rows it holds at predict time '
+                          '(fitted state shared between the per-part copies?) %s' % where, payload))
         if not sep_ok:
             fails.append((size, '%s.double-same-part' % spec['cls'],
                           'treatment and outcome learners used for a row were fitted on the same part %s' % where, payload))
